@@ -230,6 +230,9 @@ func (e *enc) loopEnv(fr *frame, h *ssa.BasicBlock, phiVals map[*ssa.Phi]Term, m
 	env := e.fnEnv(fr, mem)
 	if ls := fr.loops[h]; ls != nil {
 		env.visited = ls.visCur
+		if ls.rng != nil {
+			env.visitedSort = ls.rng.msort
+		}
 	}
 	env.locals = func(name string) (tval, bool) { return e.lookupLocal(fr, h, phiVals, mem, name) }
 	env.hash = func(name string) (Term, bool) {
@@ -657,6 +660,7 @@ func (e *enc) rangeNext(b *ssa.BasicBlock, x *ssa.Next) {
 	e.assume(fmt.Sprintf("(forall ((x %s)) (! (=> (select %s x) (select %s x)) :pattern ((select %s x))))", ks, vis, st.dom0, vis))
 	e.assume(fmt.Sprintf("(=> %s (and (select %s %s) (not (select %s %s))))", more, st.dom0, k, vis, k))
 	e.assume(fmt.Sprintf("(=> (not %s) (forall ((x %s)) (! (=> (select %s x) (select %s x)) :pattern ((select %s x)))))", more, ks, st.dom0, vis, st.dom0))
+	e.assume(fmt.Sprintf("(=> (not %s) (= %s %s))", more, vis, st.dom0)) // both inclusions hold: the sets are equal (extensionality)
 	// current map value (Go yields the current value for the key)
 	cur := st.mapTerm
 	if p, ok := fr.prov[x.Iter.(*ssa.Range).X]; ok {
@@ -700,6 +704,16 @@ func (e *enc) constInit(g *ssa.Global) (Term, bool) {
 	case *ssa.Const:
 		note()
 		return e.constant(v), true
+	case *ssa.Alloc:
+		// var g = &T{...}, never reassigned: a fixed, non-nil, allocated reference (the fields may change)
+		if pt, ok := elem.Underlying().(*types.Pointer); ok && !isNodeType(pt) {
+			note()
+			t := e.fresh("gptr_"+g.Name(), "Int")
+			e.assume(fmt.Sprintf("(> %s 0)", t))
+			e.assumeAllocated(t, elem)
+			return t, true
+		}
+		return "", false
 	case *ssa.Slice:
 		// slice literal: new [n]T; stores of constants; slice t[:]
 		al, ok := v.X.(*ssa.Alloc)
